@@ -167,7 +167,7 @@ func gridOrigin(run *evid.Run, thorough bool, deadline time.Time) {
 	for k, v := range counters {
 		run.Set("gridC_"+k, v)
 	}
-	if done > 0 && (counters["persisted_removed_after_writeback"] == 0 || counters["persisted_kept_writeback_failed"] == 0 || counters["delete_request_on_persisted"] == 0) {
+	if done > 0 && run.NViolations() == 0 && (counters["persisted_removed_after_writeback"] == 0 || counters["persisted_kept_writeback_failed"] == 0 || counters["delete_request_on_persisted"] == 0) {
 		run.Fatal(fmt.Errorf("grid C vacuous: %v", counters))
 	}
 }
@@ -277,8 +277,16 @@ func runCaseC(run *evid.Run, wk *worker, req string, owns bool, capacity int, bc
 			cs.Removed = append(cs.Removed, fmt.Sprintf("blob %d", i))
 		}
 		key = append(key, fmt.Sprintf("%v:%v", bc, d.exists))
-		if !pre[i].exists || bc.ps != 2 {
-			continue // evicted during setup, or unprotected
+		if bc.ps != 2 {
+			continue // unprotected: eviction / deletion is the implementation's choice
+		}
+		if !pre[i].exists {
+			// only possible with capacity 1: the next blob's creation evicted it
+			viols = append(viols, "persisted blob removed by LRU eviction of the CAStore file map (another blob created)")
+			continue
+		}
+		if capacity == 1 && len(bcs) == 2 && i == 0 {
+			cnt["persisted_blob_survived_eviction_by_next_blob"]++
 		}
 		if req == "delete0" {
 			if i == 0 {
